@@ -77,7 +77,9 @@ void SINKFN(vp_sink_spec)(void *spec) { (void)spec; }
 #ifdef __CPROVER__
 extern uint8_t vp_render[]; extern uint64_t vp_render_len;
 #endif
+#define FIRST_CALL_CLEAN() do { ASSERT(vp_globals_unchanged(), "module-level mutable state is written only inside ABI-guarded one-time initialisation (first call)"); vp_globals_snapshot(); } while (0)
 int vp_harness_main(void) {
+  vp_globals_snapshot();      /* re-taken at the end of every ABI-guarded one-time initialisation: any other write to module-level state is caught by the FIRST call already */
 #if OP == 1
   /* ST::format's double renderer, including renderings longer than its 64-byte stack buffer */
   vp_format_spec_t s; for (unsigned i = 0; i < sizeof s; i++) ((uint8_t *)&s)[i] = 0; s.f1 = (uint32_t)-1; s.f2 = (uint32_t)-1;
@@ -88,22 +90,22 @@ int vp_harness_main(void) {
   (void)vp_in_u64(); for (int i = 0; i < 80; i++) (void)vp_in_u8(); v1 = 1e80; v2 = -1e90; s.f5 = 1;   /* native: fixed notation of large values is longer than 64 characters */
 #endif
   vp_format_type_double(&s, v1);
-  vp_globals_snapshot();
+  FIRST_CALL_CLEAN();
 #ifdef __CPROVER__
   vp_render_len = vp_in_u64(); ASSUME(vp_render_len >= 1 && vp_render_len <= 80);     /* the second rendering has its own, independent length */
 #endif
   vp_format_type_double(&s, v2);
 #elif OP == 2
   vp_string_t o; vp_from_int_llong(&o, (int64_t)vp_in_u64(), 16, 0); vp_str_dtor(&o);
-  vp_globals_snapshot();
+  FIRST_CALL_CLEAN();
   vp_from_int_llong(&o, (int64_t)vp_in_u64(), 16, 1); vp_str_dtor(&o);
 #elif OP == 3
   { uint8_t in[3], out[3]; for (int i = 0; i < 3; i++) in[i] = vp_in_u8(); vp_string_t e; vp_b64_encode(&e, in, 3); (void)vp_b64_decode_to(&e, out, 3); vp_str_dtor(&e);
-    vp_globals_snapshot();
+    FIRST_CALL_CLEAN();
     for (int i = 0; i < 3; i++) in[i] = vp_in_u8(); vp_hex_encode(&e, in, 2); (void)vp_hex_decode_to(&e, out, 2); vp_str_dtor(&e); }
 #elif OP == 4
   { uint8_t *in = (uint8_t *)vp_exact(3); for (int i = 0; i < 3; i++) in[i] = vp_in_u8(); T_vp_dtor_c16_a0 o; vp_conv_u8_u16(&o, in, 3, 1); if (!vp_exc_pending) vp_dtor_c16(&o);
-    vp_globals_snapshot();
+    FIRST_CALL_CLEAN();
     for (int i = 0; i < 3; i++) in[i] = vp_in_u8(); vp_conv_u8_u16(&o, in, 3, 1); if (!vp_exc_pending) vp_dtor_c16(&o); }
 #endif
   ASSERT(!vp_exc_pending, "no exception");
